@@ -1234,7 +1234,15 @@ def check_misc(prog, rep, m):
             return size(t_[1][1], ax, single)
         return None
 
+    def hs(t_):
+        """`np.concatenate((a, b), axis=1)` of 2-D arrays written as the `np.hstack((a, b))` it is"""
+        if isinstance(t_, tuple) and len(t_) >= 4 and t_[0] == 'call' and t_[1] == 'numpy.concatenate' and t_[2] and t_[2][0][0] == 'tuple' and \
+                dict(t_[3]).get('axis') in (('const', 1), ('const', -1)):
+            return ('call', 'numpy.hstack', (t_[2][0],), ())
+        return t_
+
     def size(a_, ax, single):
+        a_ = hs(a_)
         if tkey(a_) in (tkey(data), tkey(mdata), tkey(('param', rname))):
             return ('H' if ax == 0 else (1 if single else 'W'))
         if a_[0] == 'call' and a_[1] in ('numpy.empty_like', 'numpy.zeros_like', 'numpy.ones_like', 'numpy.full_like') and a_[2]:
@@ -1248,9 +1256,21 @@ def check_misc(prog, rep, m):
     def cols(t_, decide=None):
         """the columns of a mask term for a single-column raster, left to right: 'M' (the given mask's column), True or False
         (a constant column); None when the term is not understood.  Built from allocations, hstack and whole-column stores."""
+        t_ = hs(t_)
         if tkey(t_) == tkey(mdata):
             return ['M']
         out_ = None
+        # a row of constants broadcast down the rows: np.broadcast_to(np.array([True, False]), values.shape).copy()
+        b_ = t_
+        if b_[0] == 'call' and isinstance(b_[1], tuple) and b_[1][0] == 'method' and b_[1][2] == 'copy' and not b_[2]:
+            b_ = b_[1][1]
+        if b_[0] == 'call' and b_[1] == 'numpy.broadcast_to' and len(b_[2]) == 2 and b_[2][0][0] == 'call' and b_[2][0][1] in ('numpy.array', 'numpy.asarray') and \
+                b_[2][0][2] and b_[2][0][2][0][0] == 'tuple' and all(x_[0] == 'const' and x_[1] in (True, False) for x_ in b_[2][0][2][0][1]):
+            row = [bool(x_[1]) for x_ in b_[2][0][2][0][1]]
+            shp_ = b_[2][1]
+            n_ = size(shp_[1], 1, True) if shp_[0] == 'attr' and shp_[2] == 'shape' else None
+            if n_ == len(row):
+                return row
         if t_[0] == 'call' and t_[1] == 'numpy.hstack' and t_[2] and t_[2][0][0] == 'tuple':
             out_ = []
             for x_ in t_[2][0][1]:
@@ -1300,6 +1320,7 @@ def check_misc(prog, rep, m):
         for masked in (True, False):
             cs = case(single, masked)
             v, mk = flat(cs[pv]), (flat(cs[pm_]) if cs[pm_] != ('const', None) else 'none')
+            v = hs(v) if v is not None else v
             okv = v is not None and (tkey(v) == tkey(data) if not single else
                                      (v[0] == 'call' and v[1] == 'numpy.hstack' and v[2] and v[2][0][0] == 'tuple' and len(v[2][0][1]) == 2 and
                                       tkey(v[2][0][1][0]) == tkey(data)))
